@@ -330,6 +330,12 @@ func (g *Values) String() string {
 	t := g.T
 	j := &JSONDoc{T: t}
 	n := strLens[t.Intn(len(strLens))]
+	if t.Chance(1, 40) {
+		n = 126 + t.Intn(4) // one-byte / two-byte length prefixes
+	}
+	if g.C != JSON && t.Chance(1, 500) {
+		n = 16382 + t.Intn(4) // two-byte / three-byte length prefixes
+	}
 	switch t.Pick(4, 3, 1) {
 	case 0:
 		b := make([]byte, n)
